@@ -2365,6 +2365,10 @@ class SequenceAndSetBase(base.ConstructedAsn1Type):
         if self._componentValues is noValue:
             return
 
+        if not self._componentValues:
+            # a record with nothing set is a value, not a schema
+            myClone.clear()
+
         for idx, componentValue in enumerate(self._componentValues):
             if componentValue is not noValue:
                 if isinstance(componentValue, base.ConstructedAsn1Type):
